@@ -7,7 +7,7 @@ import shutil
 import tempfile
 
 from vlib import cidlib, enc_ods, enc_xlsx
-from vlib.runner import Sub, norm_message
+from vlib.runner import Sub, norm_message, par_map
 
 import cutplace
 from cutplace import applications, errors
@@ -122,6 +122,34 @@ def write_cid(path, rows):
 
 
 # -- oracle -------------------------------------------------------------------------
+def _fail(sub, signature, case, message):
+    case = dict(case)
+    case["observed"] = message
+    sub.fail(signature, case, message)
+
+
+def run_shards(ctx, fn, args_list, size):
+    """Like ctx.par, but the case kept for each signature is the smallest one met by any shard."""
+    subs = par_map(fn, args_list, ctx.workers)
+    met = {}
+    for sub in subs:
+        for signature, entry in sub.fails.items():
+            met.setdefault(signature, []).extend(entry["cases"])
+        ctx.merge(sub)
+    for signature, cases in met.items():
+        entry = ctx.total.fails[signature]
+        cases.extend(c for c in entry["cases"] if c not in cases)
+        cases.sort(key=size)
+        entry["cases"] = cases[:3]
+        entry["message"] = cases[0].get("observed", entry["message"])
+
+
+def case_size(case):
+    limit = case.get("limit")
+    return (case.get("rows", case.get("good", 0)), case.get("header", 0), 0 if limit is None else 1 + limit,
+            case.get("bad") or 0, str(case.get("kind")), str(case.get("style")), case.get("tail", 0))
+
+
 def is_reported(header, bad, limit):
     return bad is not None and header < bad and (limit is None or bad <= limit)
 
@@ -178,7 +206,7 @@ def observe(sub, case, table, source, cid_path=None):
     sub.evaluations += 1
 
     def stream():
-        if fmt in ("delimited", "fixed") and not case.get("by_path"):
+        if fmt in ("delimited", "fixed"):
             return io.StringIO(source, newline="")
         return source
 
@@ -187,14 +215,14 @@ def observe(sub, case, table, source, cid_path=None):
         try:
             out = list(cutplace.rows(cid, stream(), on_error="yield", validate_until=limit))
         except Exception as error:
-            sub.fail("C07|rows|raised-%s|%s|%s" % (type(error).__name__, zone, fmt), case,
+            _fail(sub, "C07|rows|raised-%s|%s|%s" % (type(error).__name__, zone, fmt), case,
                      "cutplace.rows(on_error='yield', validate_until=%r) raised %s: %s; table %r" % (
                          limit, type(error).__name__, error, table))
             return
         expected = table[header:]
         if len(out) != len(expected):
             what = "header-row-returned" if len(out) > len(expected) else "data-row-missing"
-            sub.fail("C07|rows|%s|%s|%s" % (what, zone, fmt), case,
+            _fail(sub, "C07|rows|%s|%s|%s" % (what, zone, fmt), case,
                      "header %d, %d rows: expected %d items, got %d: %r" % (
                          header, len(table), len(expected), len(out), out))
             return
@@ -202,17 +230,17 @@ def observe(sub, case, table, source, cid_path=None):
             number = header + 1 + offset
             if number == bad and reported:
                 if not isinstance(item, errors.DataError):
-                    sub.fail("C07|rows|rejection-missing|%s|%s" % (zone, fmt), case,
+                    _fail(sub, "C07|rows|rejection-missing|%s|%s" % (zone, fmt), case,
                              "row %d (%r) must be reported with header %d and limit %r but came back as %r" % (
                                  number, row, header, limit, item))
                     return
             elif isinstance(item, Exception):
-                sub.fail("C07|rows|unexpected-rejection|%s|%s" % (zone, fmt), case,
+                _fail(sub, "C07|rows|unexpected-rejection|%s|%s" % (zone, fmt), case,
                          "row %d (%r) must be returned unvalidated/accepted with header %d and limit %r but was "
                          "reported: %s" % (number, row, header, limit, item))
                 return
             elif item != row:
-                sub.fail("C07|rows|row-changed|%s|%s" % (zone, fmt), case,
+                _fail(sub, "C07|rows|row-changed|%s|%s" % (zone, fmt), case,
                          "row %d is %r, expected %r (header %d, limit %r)" % (number, item, row, header, limit))
                 return
     elif observer == "validate":
@@ -223,16 +251,16 @@ def observe(sub, case, table, source, cid_path=None):
         except errors.DataError as error:
             raised = error
         except Exception as error:
-            sub.fail("C07|validate|raised-%s|%s|%s" % (type(error).__name__, zone, fmt), case,
+            _fail(sub, "C07|validate|raised-%s|%s|%s" % (type(error).__name__, zone, fmt), case,
                      "cutplace.validate(validate_until=%r) raised %s: %s; table %r" % (
                          limit, type(error).__name__, error, table))
             return
         if reported and raised is None:
-            sub.fail("C07|validate|rejection-missing|%s|%s" % (zone, fmt), case,
+            _fail(sub, "C07|validate|rejection-missing|%s|%s" % (zone, fmt), case,
                      "bad row %d (%r), header %d, limit %r: validate must raise but returned" % (
                          bad, table[bad - 1], header, limit))
         elif not reported and raised is not None:
-            sub.fail("C07|validate|unexpected-rejection|%s|%s" % (zone, fmt), case,
+            _fail(sub, "C07|validate|unexpected-rejection|%s|%s" % (zone, fmt), case,
                      "bad row %r, header %d, limit %r: validate must pass but raised %s; table %r" % (
                          bad, header, limit, raised, table))
     else:
@@ -241,7 +269,7 @@ def observe(sub, case, table, source, cid_path=None):
         code = run_main(argv)
         expected_code = 1 if reported else 0
         if code != expected_code:
-            sub.fail("C07|main|exit-%s-expected-%d|%s|%s" % (code, expected_code, zone, fmt), case,
+            _fail(sub, "C07|main|exit-%s-expected-%d|%s|%s" % (code, expected_code, zone, fmt), case,
                      "main(%r) returned %s, expected %d (bad row %r, header %d, limit %r); table %r" % (
                          argv[1:-2] + ["CID", "DATA"], code, expected_code, bad, header, limit, table))
 
@@ -399,21 +427,21 @@ def observe_fault(sub, case):
     except errors.DataError as error:
         raised = error
     except Exception as error:
-        sub.fail("C07|validate|fault-raised-%s|%s" % (type(error).__name__, fmt), case,
+        _fail(sub, "C07|validate|fault-raised-%s|%s" % (type(error).__name__, fmt), case,
                  "cutplace.validate(validate_until=%r) on %r raised %s: %s" % (limit, text, type(error).__name__, error))
         return expectation, "other"
     outcome = "pass" if raised is None else type(raised).__name__
     if expectation == "pass" and raised is not None:
-        sub.fail("C07|validate|reads-beyond-limit|%s" % fmt, case,
+        _fail(sub, "C07|validate|reads-beyond-limit|%s" % fmt, case,
                  "header %d, limit %d: validate must stop after %d data rows (row %d at the latest) but reported the "
                  "broken row %d: %s; data %r" % (header, limit, limit, header + limit, pos, raised, text))
     elif expectation == "raise" and raised is None:
         what = "fault-not-reported-without-limit" if limit is None else "fault-inside-limit-not-reported"
-        sub.fail("C07|validate|%s|%s" % (what, fmt), case,
+        _fail(sub, "C07|validate|%s|%s" % (what, fmt), case,
                  "header %d, limit %r: the broken row %d must be reported but validate returned; data %r" % (
                      header, limit, pos, text))
     elif expectation == "raise" and limit is None and not isinstance(raised, errors.DataFormatError):
-        sub.fail("C07|validate|fault-reported-as-%s|%s" % (type(raised).__name__, fmt), case,
+        _fail(sub, "C07|validate|fault-reported-as-%s|%s" % (type(raised).__name__, fmt), case,
                  "the broken row %d must be reported as DataFormatError, got %s: %s; data %r" % (
                      pos, type(raised).__name__, norm_message(raised), text))
     return expectation, outcome
@@ -484,15 +512,14 @@ def run(ctx):
     for fmt in ("ods", "excel"):
         sheet_specs = table_specs(fmt)
         specs += [s for i, s in enumerate(sheet_specs) if (i + ctx.seed) % stride == 0]
-    # interleave so that every shard gets its share of the slow formats
+    # smallest tables first (the first case recorded for a signature is then a small one); taking every n-th table
+    # gives each shard its share of the slow formats
+    specs.sort(key=lambda s: (s[2], s[1], s[3] or 0, s[5], str(s[4]), s[0]))
     shards = max(1, ctx.workers * 2)
-    order = sorted(range(len(specs)), key=lambda i: (i * 7919 + ctx.seed) % len(specs)) if len(specs) % 7919 else \
-        list(range(len(specs)))
-    specs = [specs[i] for i in order]
-    ctx.par(_bad_shard, [(i, shards, specs) for i in range(shards)])
+    run_shards(ctx, _bad_shard, [(i, shards, specs) for i in range(shards)], case_size)
     cases = fault_cases()
     fault_shards = max(1, min(ctx.workers, 8))
-    ctx.par(_fault_shard, [(i, fault_shards, cases) for i in range(fault_shards)])
+    run_shards(ctx, _fault_shard, [(i, fault_shards, cases) for i in range(fault_shards)], case_size)
 
 
 def replay(sub, case):
